@@ -370,7 +370,7 @@ func (t *treeRun) check() {
 	t.lifecycleCheck(false)
 	h.CheckTree("")
 	healthy := len(t.sc.Faults) == 0 && t.sc.WatchMode == "" && len(t.sc.ListScript) == 0
-	if healthy && !h.WatchOverflow && !t.rootDown() && detsim.IsClosed(h.Ctrl.Ready()) {
+	if healthy && !h.WatchLossPossible() && !t.rootDown() && detsim.IsClosed(h.Ctrl.Ready()) {
 		h.CheckRootEqualsServer("healthy-watch-missed-events")
 	}
 }
@@ -428,7 +428,7 @@ func (t *treeRun) finalChecks() {
 			time.Sleep(sc.period()*3 + ms(sc.ListLatMs[0]+sc.ListLatMs[1])*2 + 2*time.Second)
 		}
 		detsim.Settle()
-		if (!h.WatchOverflow || sc.PeriodMs > 0) && !t.rootDown() {
+		if (!h.WatchLossPossible() || sc.PeriodMs > 0) && !t.rootDown() {
 			h.CheckRootEqualsServer("survivor-not-functional")
 		}
 		h.CheckTree("survivor:")
@@ -499,7 +499,7 @@ func (t *treeRun) stalledChecks() {
 	h := t.h
 	var w *world.NodeRT
 	for _, n := range h.Nodes {
-		if n.Sub != nil && n.Mon == nil && n.Reader == "eager" && n.Parent == nil && !n.Filtered() && !n.WasFull {
+		if n.Sub != nil && n.Mon == nil && n.Reader == "eager" && n.Parent == nil && !n.Filtered() && !n.Lost() {
 			w = n
 			break
 		}
@@ -548,7 +548,7 @@ func isSubsequence(sub, seq []string) bool {
 // unfiltered eager subscribers when no overflow happened.
 func (t *treeRun) sequenceChecks() {
 	h := t.h
-	if h.Overflow || !t.sc.NoOverflow {
+	if h.Overflowed() || !t.sc.NoOverflow {
 		return
 	}
 	var plain []*world.NodeRT
@@ -646,7 +646,7 @@ func (t *treeRun) monitorChecks() {
 		}
 		// replay: init list + callbacks must reproduce the publisher's cache
 		// (when nothing overflowed and the monitor is still attached)
-		if h.Overflow || h.OverflowSeen || t.closedByScenario(n) || n.WasFull {
+		if h.Overflowed() || t.closedByScenario(n) || n.Lost() {
 			continue
 		}
 		var types []string
